@@ -263,13 +263,13 @@ impl DbInner {
 	}
 
 	fn get(&self, col: ColId, key: &[u8], external_call: bool) -> Result<Option<Value>> {
-		if self.options.columns[col as usize].multitree && external_call {
-			return Err(Error::InvalidConfiguration(
-				"get not supported for multitree columns.".to_string(),
-			))
-		}
 		match &self.columns[col as usize] {
 			Column::Hash(column) => {
+				if self.options.columns[col as usize].multitree && external_call {
+					return Err(Error::InvalidConfiguration(
+						"get not supported for multitree columns.".to_string(),
+					))
+				}
 				let key = column.hash_key(key);
 				let overlay = self.commit_overlay.read();
 				// Check commit overlay first
@@ -293,13 +293,13 @@ impl DbInner {
 	}
 
 	fn get_size(&self, col: ColId, key: &[u8]) -> Result<Option<u32>> {
-		if self.options.columns[col as usize].multitree {
-			return Err(Error::InvalidConfiguration(
-				"get_size not supported for multitree columns.".to_string(),
-			))
-		}
 		match &self.columns[col as usize] {
 			Column::Hash(column) => {
+				if self.options.columns[col as usize].multitree {
+					return Err(Error::InvalidConfiguration(
+						"get_size not supported for multitree columns.".to_string(),
+					))
+				}
 				let key = column.hash_key(key);
 				let overlay = self.commit_overlay.read();
 				// Check commit overlay first
